@@ -272,6 +272,25 @@ pub fn for_each_workspace(tier: Tier, ctx: &mut Ctx, mut f: impl FnMut(&mut Ctx,
             }
         }
     }
+    // 6b. every name followed by trivia: seeds and stress words of <= 2 statements, two fillers
+    for filler in [" /*t*/", "\n  // t\n  "] {
+        for (name, text) in &files.seeds {
+            if ctx.mine() && !f(ctx, &seed_workspace(&files, name, &space::spaced(text, filler), "spaced")) {
+                return;
+            }
+        }
+        let total = tgv_core::words::count_upto(m as u64, 2);
+        for idx in 0..total {
+            if !ctx.mine() {
+                continue;
+            }
+            tgv_core::words::decode(idx, m as u64, 2, &mut word);
+            let text = word.iter().map(|&i| menu[i].as_str()).collect::<Vec<_>>().join("\n");
+            if !f(ctx, &WsCase::single(&space::spaced(&text, filler), "spaced")) {
+                return;
+            }
+        }
+    }
     // 7. the big corpus files, whole (thorough)
     if tier == Tier::Thorough {
         for (name, text) in files.corpus.iter().filter(|(_, t)| t.len() > small) {
